@@ -16,6 +16,7 @@ g("NewRecord_empty", ["NewRecord", "WrRecHeader", "FlushBuffer"]); g("NewRecord_
 for gran in (1, 2, 4):
     g("WriteBytes_overflow", ["WriteBytes", "NewRecord"], defs=["-DVERIF_GRAN=%d" % gran], timeout=300); GROUPS[-1]["name"] = "cf_WriteBytes_overflow_g%d" % gran
 g("DreheCodes", ["DreheCodes"], unwind=18, timeout=300, bounded="lines of at most 16 bytes, listing word size 1/2/4")
+g("DreheCodes_any", ["DreheCodes"], unwind=14, timeout=600, loops=True, pre_unwind=["DreheCodes.1:5"])
 g("OpenFile", ["OpenFile", "NewRecord"]); g("CloseFile", ["CloseFile", "NewRecord"], unwind=16)
 GROUPS.append(G("as_WriteCode", "harness/C04/h_as_writecode.c", "h_WriteCode", enforce=[], link=["asmdef.c"], stubs=STUBS, unwind=14, timeout=600,
                 functions=["WriteCode"], object_bits=12, dfcc=False, defs=["-DSTRINGSIZE=64"]))
@@ -32,8 +33,8 @@ MANIFEST = dict(
          "starts a new record at the line's address when the 64 KiB record limit would be exceeded; NewRecord patches the length of the closed "
          "record and writes a consistent header (or reuses an empty record in place); OpenFile writes magic + first header; CloseFile writes entry "
          "record, end marker and creator string. WriteCode (as.c) hands the line to the writer at its own address, reserves via NewRecord(address "
-         "behind the gap) and advances the counter by the line's length. The per-statement contracts compose by the induction in DESIGN.md.",
+         "behind the gap) and advances the counter by the line's length. DreheCodes (word turning on TurnWords targets) moves byte j to j ^ (word size - 1) for lines of every length (loop contracts). The per-statement contracts compose by the induction in DESIGN.md.",
     note="Instrumentation: CBMC without DFCC (no function contracts needed; obligations are harness assertions over the real functions). memcpy is "
          "observed by a monitor (range check, witness byte, watched earlier byte). Assumed: no relocatable segments (PatchList/ExportList empty), "
-         "TurnWords == 0 (DreheCodes byte swapping not yet under contract), no instruction stuffing (StopfZahl == 0), writes do not fail.",
+         "WriteBytes itself is run with TurnWords == 0 (DreheCodes is verified on its own), no instruction stuffing (StopfZahl == 0), writes do not fail.",
 )
